@@ -307,13 +307,23 @@ Proof.
     lia.
 Qed.
 
+(* ... whatever stop is in front of it: it has no own duration and (wf_input)
+   it is in no duration group *)
+Lemma stop_duration_at_invalid (inp : input) (p x : nat) :
+  wf_input inp -> loc_valid inp x = false -> stop_duration_at inp p x = 0.
+Proof.
+  intros Hwf H. apply (stop_duration_at_not_input inp p x Hwf).
+  exact (loc_invalid_not_input inp x H).
+Qed.
+
+(* the time spent at a stop is its duration after the stop in front of it *)
 Lemma cells_from_duration (inp : input) (v : nat) :
   forall (rest : list nat) (p : cell),
-    Forall (fun c => c_end c - c_start c = stop_duration inp (c_stop c))
+    Forall (fun c => exists q, c_end c - c_start c = stop_duration_at inp q (c_stop c))
            (cells_from inp v p rest).
 Proof.
   induction rest as [|x rest IH]; intros p; cbn [cells_from]; constructor; [|apply IH].
-  rewrite (nc_end inp v p x), c_stop_next_cell. lia.
+  exists (c_stop p). rewrite (nc_end inp v p x), c_stop_next_cell. lia.
 Qed.
 
 Lemma listed_duration (inp : input) (v : nat) (ht : bool) :
@@ -331,11 +341,12 @@ Qed.
 (* the stops duration reported for a vehicle is the total end - start over
    all its cells, listed or not *)
 Lemma listed_duration_route (inp : input) (v : nat) (ht : bool) (rest : list nat) :
+  wf_input inp ->
   let f := first_cell inp v in
   sumZ (map so_duration (listed inp v ht f (f :: cells_from inp v f rest)))
   = sumZ (map (fun c => c_end c - c_start c) (cells_from inp v f rest)).
 Proof.
-  cbv zeta. rewrite listed_duration. cbn [map]. rewrite sumZ_cons.
+  intros Hwf. cbv zeta. rewrite listed_duration. cbn [map]. rewrite sumZ_cons.
   destruct (first_cell_zero inp v) as (_ & _ & Z3 & _).
   assert (E0 : (if loc_valid inp (c_stop (first_cell inp v))
                 then c_end (first_cell inp v) - c_start (first_cell inp v) else 0) = 0).
@@ -343,7 +354,8 @@ Proof.
   rewrite E0. cbn [Z.add]. f_equal. apply map_ext_in. intros c Hc.
   destruct (loc_valid inp (c_stop c)) eqn:El; [reflexivity|].
   pose proof (cells_from_duration inp v rest (first_cell inp v)) as Hd.
-  rewrite Forall_forall in Hd. rewrite (Hd c Hc), (stop_duration_invalid inp _ El). reflexivity.
+  rewrite Forall_forall in Hd. destruct (Hd c Hc) as (q & Eq).
+  rewrite Eq, (stop_duration_at_invalid inp q _ Hwf El). reflexivity.
 Qed.
 
 Theorem C20_waiting_is_sum_of_waits_proof : forall inp s v,
@@ -354,7 +366,7 @@ Proof.
   intros inp s v Hwf Hr Hv. pose proof (reachable_invT inp s Hwf Hr) as HI.
   destruct (route_open inp s v HI Hv) as (rest & _ & E). rewrite E.
   rewrite vehicle_output_eq. cbn [vo_waiting hd tl].
-  rewrite (listed_duration_route inp v _ rest).
+  rewrite (listed_duration_route inp v _ rest Hwf).
   unfold last_cell. rewrite last_cons_default.
   pose proof (telescope inp v rest (first_cell inp v)) as T. cbv zeta in T.
   destruct (first_cell_zero inp v) as (_ & Z2 & Z3 & _). lia.
@@ -410,7 +422,7 @@ Definition ex20_inp : input :=
           [mkIVehicle None [] 0 None None None None None [] 0 false false]
           [mkIUnit [0%nat] []]
           [[0; 60; 60]; [60; 0; 60]; [60; 60; 0]] [[0; 60; 60]; [60; 0; 60]; [60; 60; 0]]
-          0 ex2_opts.
+          0 ex2_opts [].
 Definition ex20_s0 : state :=
   Eval vm_compute in match new_solution ex20_inp with Some s => s | None => ex_dummy end.
 Definition ex20_mv : move := mkMove 0 0 [(0, 1)]%nat.
@@ -418,7 +430,7 @@ Definition ex20_s1 : state := Eval vm_compute in fst (exec_move ex20_inp ex20_s0
 
 Example ex20_wf : wf_input ex20_inp.
 Proof.
-  split; [|split].
+  split; [|split; [|split; [|exact (Forall_nil _)]]].
   - vm_compute. constructor; [simpl; tauto|constructor].
   - intros x. vm_compute. lia.
   - intros u Hu. vm_compute in Hu. destruct Hu as [<-|[]]; discriminate.
